@@ -53,6 +53,16 @@ static int sp_inv(const _vbi_xds_subpacket *sp)
 
 static unsigned slot_of(unsigned sub) { return sub >= 0x40 ? sub - 0x30 : sub; }
 
+/* slot access at a symbolic (c,i) through concrete loops: symbolic indices into the field-sensitive demux object stall symex */
+static _vbi_xds_subpacket slot_get(int sc, int si)
+{ _vbi_xds_subpacket r; unsigned c, i; memset(&r, 0, sizeof r);
+  for (c = 0; c < VBI_XDS_MAX_CLASSES; c++) for (i = 0; i < VBI_XDS_MAX_SUBCLASSES; i++) if ((int) c == sc && (int) i == si) r = XD.subpacket[c][i];
+  return r; }
+static _vbi_xds_subpacket *slot_ptr(int sc, int si)
+{ _vbi_xds_subpacket *r = NULL; unsigned c, i;
+  for (c = 0; c < VBI_XDS_MAX_CLASSES; c++) for (i = 0; i < VBI_XDS_MAX_SUBCLASSES; i++) if ((int) c == sc && (int) i == si) r = &XD.subpacket[c][i];
+  return r; }
+
 /* current slot of a demux, -1/-1 if none; returns 0 if curr_sp is not consistent with curr.xds_class/subclass */
 static int xd_cur(const vbi_xds_demux *xd, int *cur_c, int *cur_i)
 {
@@ -60,7 +70,7 @@ static int xd_cur(const vbi_xds_demux *xd, int *cur_c, int *cur_i)
   if (xd->curr_sp) {
     unsigned cc = (unsigned) xd->curr.xds_class, ii = slot_of(xd->curr.xds_subclass);
     if (cc > VBI_XDS_CLASS_MISC || ii >= VBI_XDS_MAX_SUBCLASSES || xd->curr.xds_subclass > 0x7F) return 0;
-    if (xd->curr_sp != &xd->subpacket[cc][ii]) return 0;
+    if (xd->curr_sp != slot_ptr((int) cc, (int) ii)) return 0;
     *cur_c = (int) cc; *cur_i = (int) ii;
   }
   return 1;
@@ -83,36 +93,34 @@ V_HARNESS(h_xds_step)
   int hc = -1, hi = -1, oc, oi;     /* slot named by a header pair; arbitrary observer slot */
   _vbi_xds_subpacket o_cur, o_hdr, o_obs, n_cur, n_hdr, n_obs; vbi_xds_packet o_curr;
   V_INIT();
-#ifdef VERIF_CBMC
-  { vbi_xds_demux nondet_xd(void); XD = nondet_xd(); }          /* arbitrary state ... */
-  __CPROVER_assume(0 == memcmp(&XD, &VINS.b[0], sizeof XD));      /* ... mirrored in VINS for the native replay */
-#else
-  memcpy(&XD, &VINS.b[0], sizeof XD);
-#endif
+  memcpy(&XD, &VINS.b[0], sizeof XD);                            /* arbitrary state image */
   vin_pos = sizeof XD;
   XD.callback = cb; XD.user_data = &cb_n;
   { unsigned has = in_u8(), sc = in_u8(), si = in_u8();
-    if (has & 1) { V_ASSUME(sc <= VBI_XDS_CLASS_MISC && si < VBI_XDS_MAX_SUBCLASSES); XD.curr_sp = &XD.subpacket[sc][si]; }
+    if (has & 1) { V_ASSUME(sc <= VBI_XDS_CLASS_MISC && si < VBI_XDS_MAX_SUBCLASSES); XD.curr_sp = slot_ptr((int) sc, (int) si); }
     else XD.curr_sp = NULL; }
   pair[0] = in_u8(); pair[1] = in_u8();
+#ifdef C1FIX      /* case split on the first byte (runner grid): the demux dispatches on it */
+  pair[0] = (C1FIX < 0) ? (uint8_t) (ref_par8(-(C1FIX)) ^ 0x80) : (uint8_t) ref_par8(C1FIX);
+#endif
   c1 = ref_unpar(pair[0]); c2 = ref_unpar(pair[1]);
   if (c1 >= 1 && c1 <= 0x0E && c2 >= 0 && (unsigned) (c1 - 1) >> 1 <= VBI_XDS_CLASS_MISC && slot_of((unsigned) c2) < VBI_XDS_MAX_SUBCLASSES) {
     hc = (c1 - 1) >> 1; hi = (int) slot_of((unsigned) c2); }
   oc = in_u8(); oi = in_u8(); V_ASSUME(oc < VBI_XDS_MAX_CLASSES && oi < VBI_XDS_MAX_SUBCLASSES);
   V_ASSUME(xd_cur(&XD, &cc, &ci));
   memset(&o_cur, 0, sizeof o_cur); memset(&o_hdr, 0, sizeof o_hdr);
-  if (cc >= 0) { o_cur = XD.subpacket[cc][ci]; V_ASSUME(o_cur.count >= 2 && o_cur.count <= 34); }
-  if (hc >= 0) { o_hdr = XD.subpacket[hc][hi]; V_ASSUME(sp_inv(&o_hdr)); }
-  o_obs = XD.subpacket[oc][oi]; V_ASSUME(sp_inv(&o_obs));
+  if (cc >= 0) { o_cur = slot_get(cc, ci); V_REACH("cur0"); V_ASSUME(o_cur.count >= 2 && o_cur.count <= 34); V_REACH("cur"); }
+  if (hc >= 0) { o_hdr = slot_get(hc, hi); V_ASSUME(sp_inv(&o_hdr)); }
+  o_obs = slot_get(oc, oi); V_ASSUME(sp_inv(&o_obs));
   o_curr = XD.curr;
 
   r = vbi_xds_demux_feed(&XD, pair);
 
   V_ASSERT(xd_cur(&XD, &nc, &ni), "step_inv_curr_consistent");
   n_cur = o_cur; n_hdr = o_hdr;
-  if (cc >= 0) { n_cur = XD.subpacket[cc][ci]; V_ASSERT(sp_inv(&n_cur), "step_inv_prev_current"); }
-  if (hc >= 0) { n_hdr = XD.subpacket[hc][hi]; V_ASSERT(sp_inv(&n_hdr), "step_inv_header_slot"); }
-  n_obs = XD.subpacket[oc][oi]; V_ASSERT(sp_inv(&n_obs), "step_inv_observer");
+  if (cc >= 0) { n_cur = slot_get(cc, ci); V_ASSERT(sp_inv(&n_cur), "step_inv_prev_current"); }
+  if (hc >= 0) { n_hdr = slot_get(hc, hi); V_ASSERT(sp_inv(&n_hdr), "step_inv_header_slot"); }
+  n_obs = slot_get(oc, oi); V_ASSERT(sp_inv(&n_obs), "step_inv_observer");
   if (nc >= 0) V_ASSERT((nc == cc && ni == ci && n_cur.count >= 2) || (nc == hc && ni == hi && n_hdr.count >= 2), "step_inv_current_started");
   V_ASSERT(cb_n <= 1, "step_at_most_one_delivery");
   /* ---- contract ---- */
